@@ -14,6 +14,7 @@ import (
 	"time"
 
 	"github.com/pip-services3-gox/pip-services3-expressions-gox/calculator"
+	"github.com/pip-services3-gox/pip-services3-expressions-gox/calculator/functions"
 	"github.com/pip-services3-gox/pip-services3-expressions-gox/calculator/variables"
 	"github.com/pip-services3-gox/pip-services3-expressions-gox/mustache"
 	"github.com/pip-services3-gox/pip-services3-expressions-gox/variants"
@@ -266,6 +267,11 @@ func c19TmplExec(c *mon.Case) {
 	maps := make([]map[string]string, 6)
 	for k := range maps {
 		maps[k] = g.vars(nodes)
+		if seed%2 == 0 { // renderings of a kilobyte and more, of a different size for every map
+			for key, v := range maps[k] {
+				maps[k][key] = strings.Repeat(v+"x", 150*(k+1))
+			}
+		}
 	}
 	t := mustache.NewMustacheTemplate()
 	if err := t.SetTemplate(src); err != nil {
@@ -398,7 +404,7 @@ func buildC19(cfg *mon.Config) []*mon.Sub {
 			directed := []string{"Sum(a, b, c, d, l, a, b, c, d, l, z)", "Max(a, b, c, d, l, z, a, b, c) - Min(a, b, c, d, l, z, a, b, c, d)", "Array(a, b, c, d, l, z, a, b, c, d, l, z)[a % 12]",
 				"DayOfWeek(ds)", "DayOfWeek(ds) * 10 + DayOfWeek(dt)", "If(DayOfWeek(ds) > 3, s, t) + ds", "dt > ds", "Contains(s + t, t)", "a / z", "arr[a]", "nosuch(a) + b", "a IN arr OR b NOT IN arr",
 				"s + a + x + f + p", "Sqrt(x) + Abs(d) + Round(f)", "TimeSpan(a, b, c) > TimeSpan(b)", "Date(2000 + a, b, c) < dt",
-				"a << d", "l >> d", "arr[d]", "s[99]", "a % z", "Choose(9, a, b)", "Min(a)", "x AND p", "-s", "NOT x", "n[1] + a", "a IN s", "(a << d) + (b >> d)", "If(p, a << d, b)"}
+				"Choose(a - 5, b, c)", "Min(a, If(b > 5, n, c))", "Max(If(a > 5, n, b), c, d) + Choose(b - 4, a, c, d)", "a << d", "l >> d", "arr[d]", "s[99]", "a % z", "Choose(9, a, b)", "Min(a)", "x AND p", "-s", "NOT x", "n[1] + a", "a IN s", "(a << d) + (b >> d)", "If(p, a << d, b)"}
 			for i := 0; i < cfg.N(150, 4000)+len(directed); i++ {
 				var t *model.Node
 				if r.Bool() {
@@ -600,6 +606,210 @@ func buildC19(cfg *mon.Config) []*mon.Sub {
 			c.NonTrivial()
 		},
 	}
+	sharedVals := &mon.Sub{
+		Name:       "collections-sharing-their-value-objects",
+		Serial:     true,
+		Rule:       "evaluation does not modify variable values, so several collections may hold the very same value objects: expressions over arrays, strings, date-times and numbers (array equality and inequality, IN, indexing, Array(...) of arrays, concatenation, comparisons) are evaluated by 2, 4 and 16 goroutines sharing the calculator, each with its own collection object whose variables all point at ONE shared set of value variants; every result must equal the sequential one, the shared values must be unchanged afterwards, and the race detector must see no write to them; between evaluations the goroutines also call Equals, Clone, Length and GetByIndex directly on one shared 300-element array variant (against an equal copy and a copy with another first element); a case is one evaluation",
+		Exhaustive: true, DistinctByGen: true, Floor: 50,
+		Gen: func(emit func(string)) {
+			for _, e := range []string{"arr = arr2", "arr <> sarr", "arr = arr", "Array(arr, arr2) = Array(arr, arr2)", "a IN arr", "arr IN Array(arr, arr2)", "arr[1] + arr2[0]", "s + t + s", "dt > ds", "If(arr = arr2, a, b)", "Contains(s, t)", "Max(a, b, l, x)", "-a + +b", "NOT p", "n IS NULL", "nested = nested", "nested[0] = arr"} {
+				for _, g := range []int{2, 4, 16} {
+					emit(e + "\x00" + strconv.Itoa(g) + "\x00" + strconv.Itoa(cfg.N(40, 800)))
+				}
+			}
+		},
+		Exec: func(c *mon.Case) {
+			parts := strings.Split(c.Payload, "\x00")
+			src := parts[0]
+			G, _ := strconv.Atoi(parts[1])
+			reps, _ := strconv.Atoi(parts[2])
+			e := stdEnv(mon.NewRng(11, "c19-shared-values"))
+			long := []Val{}
+			for i := 0; i < 40; i++ {
+				long = append(long, vInt(i))
+			}
+			e.names = append(e.names, "arr2", "nested")
+			e.vals = append(e.vals, vArr(vInt(2), vInt(3), vInt(5)), vArr(vArr(vInt(2), vInt(3), vInt(5)), vArr(long...)))
+			shared := make([]*variants.Variant, len(e.vals))
+			for i, v := range e.vals {
+				shared[i] = v.Variant()
+			}
+			mk := func() *variables.VariableCollection {
+				vc := variables.NewVariableCollection()
+				for i, n := range e.names {
+					vc.Add(variables.NewVariable(n, shared[i]))
+				}
+				return vc
+			}
+			fresh := calculator.NewExpressionCalculator()
+			if err := fresh.SetExpression(src); err != nil {
+				c.Failf("expression rejected", "%q: %v", src, err)
+				return
+			}
+			want := evalString(fresh, e.collection())
+			big := func(first int) *variants.Variant {
+				el := []*variants.Variant{variants.VariantFromInteger(first)}
+				for i := 1; i < 300; i++ {
+					el = append(el, variants.VariantFromInteger(i))
+				}
+				return variants.VariantFromArray(el)
+			}
+			bigA, bigSame, bigOther := big(0), big(0), big(-7)
+			for pass := 1; pass <= 2; pass++ {
+				calc := calculator.NewExpressionCalculator()
+				calc.SetExpression(src)
+				if pass == 2 {
+					calculator.VerifEvalHook = nil
+				} else {
+					atomic.StoreInt32(&h3.enabled, 1)
+				}
+				bad := make([]string, G)
+				start := make(chan struct{})
+				var wg sync.WaitGroup
+				for g := 0; g < G; g++ {
+					wg.Add(1)
+					go func(g int) {
+						defer wg.Done()
+						own := mk()
+						<-start
+						for n := 0; n < reps; n++ {
+							if got := evalString(calc, own); got != want {
+								bad[g] = fmt.Sprintf("goroutine %d, evaluation %d: sequential result %s, concurrent result %s", g, n, want, got)
+								return
+							}
+							// reading methods of the shared values themselves, called directly
+							if n%4 == 0 {
+								if !bigA.Equals(bigSame) || bigA.Equals(bigOther) || bigA.Clone().Length() != bigA.Length() || bigA.GetByIndex(1).AsInteger() != 1 {
+									bad[g] = fmt.Sprintf("goroutine %d, round %d: Equals / Clone / GetByIndex on a shared array variant (300 elements) give Equals(equal copy)=%v Equals(copy with another first element)=%v", g, n, bigA.Equals(bigSame), bigA.Equals(bigOther))
+									return
+								}
+							}
+						}
+					}(g)
+				}
+				close(start)
+				wg.Wait()
+				if pass == 1 {
+					atomic.StoreInt32(&h3.enabled, 0)
+					h3Signature()
+				} else {
+					installEvalHooks()
+				}
+				for _, b := range bad {
+					if b != "" {
+						c.Failf("concurrent evaluation of one parsed expression differs from the sequential result", "expression=%q (collections share their value objects)\n%s", src, b)
+						return
+					}
+				}
+			}
+			for i, v := range e.vals {
+				if !snap(shared[i]).Same(v) {
+					c.Failf("evaluation modified the compiled program, a variable value or the function table", "expression=%q: shared value %s is now %s", src, v, snap(shared[i]))
+					return
+				}
+			}
+			c.AddEvals(2*G*reps-1, 2*G*reps-1)
+			c.NonTrivial()
+		},
+	}
+	ownFuncs := &mon.Sub{
+		Name:       "shared-calculator-own-function-collections",
+		Serial:     true,
+		Rule:       "one compiled expression calling f and g is evaluated by 2, 4 and 16 goroutines sharing the calculator, each passing a function collection of its own (three different definitions of f and g; every fourth goroutine passes none, so f is missing: an error naming it), with and without the hooks: every result must be the one computed sequentially for that collection on a fresh calculator, and the calculator's default functions must be the same object with the same 37 entries afterwards; a case is one evaluation",
+		Exhaustive: true, DistinctByGen: true, Floor: 50,
+		Gen: func(emit func(string)) {
+			for _, e := range []string{"f(2) + g(3)", "f(g(2)) * 10 + f(1)", "Sum(f(1), g(1), a)", "If(f(0) > g(0), f(5), g(5)) - b", "f(a) + Max(g(b), 3)"} {
+				for _, g := range []int{2, 4, 16} {
+					emit(e + "\x00" + strconv.Itoa(g) + "\x00" + strconv.Itoa(cfg.N(60, 1000)))
+				}
+			}
+		},
+		Exec: func(c *mon.Case) {
+			parts := strings.Split(c.Payload, "\x00")
+			src := parts[0]
+			G, _ := strconv.Atoi(parts[1])
+			reps, _ := strconv.Atoi(parts[2])
+			e := &env{names: []string{"a", "b"}, vals: []Val{vInt(7), vInt(3)}}
+			mk := func(k int) functions.IFunctionCollection {
+				if k == 3 {
+					return nil
+				}
+				fc := functions.NewDefaultFunctionCollection()
+				fc.Add(functions.NewDelegatedFunction("f", func(p []*variants.Variant, o variants.IVariantOperations) (*variants.Variant, error) {
+					return variants.VariantFromInteger(p[0].AsInteger() + 1 + 100*k), nil
+				}))
+				fc.Add(functions.NewDelegatedFunction("g", func(p []*variants.Variant, o variants.IVariantOperations) (*variants.Variant, error) {
+					return variants.VariantFromInteger(p[0].AsInteger() * (2 + 5*k)), nil
+				}))
+				return fc
+			}
+			evalWith := func(calc *calculator.ExpressionCalculator, vc *variables.VariableCollection, fc functions.IFunctionCollection) string {
+				var r *variants.Variant
+				var err error
+				if p := mon.Try(func() { r, err = calc.EvaluateUsingVariablesAndFunctions(vc, fc) }); p != nil {
+					return "PANIC " + p.Sig()
+				}
+				if err != nil {
+					return "error " + errCode(err) + " " + err.Error()
+				}
+				return snap(r).String()
+			}
+			want := make([]string, 4)
+			for k := range want {
+				fresh := calculator.NewExpressionCalculator()
+				fresh.SetExpression(src)
+				want[k] = evalWith(fresh, e.collection(), mk(k))
+			}
+			for pass := 1; pass <= 2; pass++ {
+				calc := calculator.NewExpressionCalculator()
+				calc.SetExpression(src)
+				defaults := calc.DefaultFunctions()
+				if pass == 2 {
+					calculator.VerifEvalHook = nil
+				} else {
+					atomic.StoreInt32(&h3.enabled, 1)
+				}
+				bad := make([]string, G)
+				start := make(chan struct{})
+				var wg sync.WaitGroup
+				for g := 0; g < G; g++ {
+					wg.Add(1)
+					go func(g int) {
+						defer wg.Done()
+						k := g % 4
+						own, fc := e.collection(), mk(k)
+						<-start
+						for n := 0; n < reps; n++ {
+							if got := evalWith(calc, own, fc); got != want[k] {
+								bad[g] = fmt.Sprintf("goroutine %d (function collection #%d), evaluation %d: sequential result %s, concurrent result %s", g, k, n, want[k], got)
+								return
+							}
+						}
+					}(g)
+				}
+				close(start)
+				wg.Wait()
+				if pass == 1 {
+					atomic.StoreInt32(&h3.enabled, 0)
+					h3Signature()
+				} else {
+					installEvalHooks()
+				}
+				for _, b := range bad {
+					if b != "" {
+						c.Failf("concurrent evaluation of one parsed expression differs from the sequential result", "expression=%q (every goroutine passes its own function collection)\n%s", src, b)
+						return
+					}
+				}
+				if calc.DefaultFunctions() != defaults || defaults.Length() != 37 || defaults.FindByName("f") != nil {
+					c.Failf("evaluation modified the compiled program, a variable value or the function table", "expression=%q: after evaluations with function collections of the callers' own, the calculator's default functions are another object or hold %d entries", src, calc.DefaultFunctions().Length())
+					return
+				}
+			}
+			c.AddEvals(2*G*reps-1, 2*G*reps-1)
+			c.NonTrivial()
+		},
+	}
 	race := &mon.Sub{
 		Name:   "race-detector-reports",
 		Serial: true,
@@ -678,5 +888,5 @@ func buildC19(cfg *mon.Config) []*mon.Sub {
 			}
 		},
 	}
-	return []*mon.Sub{exprs, tmpls, own, args, clock, race}
+	return []*mon.Sub{exprs, tmpls, own, args, clock, sharedVals, ownFuncs, race}
 }
